@@ -5,6 +5,7 @@ import queue
 from vlib import core, prog, physics, h5oracle
 
 ASSUME = [
+    "a quarter of the single-bunch files come from runs started from a crafted start file (two off-centre blobs), mostly without renormalisation",
     "one file in eight comes from a run interrupted by a real SIGINT at a random interrupt point (guarded hook); its final step is the one the hook's log implies (set-up: 0, inside a step: step+1)",
     "final step = ceil(steps*T) with T in single precision as the program takes it; the generator uses dyadic T or T with steps*T well away from an integer, so the oracle never takes sides on that rounding",
     "datasets the configuration does not use have zero records (/WakePotential without impedance); /RFKicks is per step and belongs to C19",
@@ -99,6 +100,11 @@ def gen_case(seed, i, tier):
         o["StepsPerRevolution"] = round(steps * o["SynchrotronFrequency"] / 9e6 * r.uniform(0.9, 1.1), 6)
     if r.chance(0.2):
         o["DampingTime"] = r.choice([0.0, 5e-3])
+    if nbk == 1 and i % 8 in (2, 6):
+        # the run starts from a distribution read from a file (two off-centre blobs, nothing like the built-in Gaussian):
+        # record 0 must describe *that* distribution, whatever the renormalisation setting
+        o["_startfile"] = True
+        o["RenormalizeCharge"] = r.choice([-1, -1, 0, 3])
     return o
 
 
@@ -131,6 +137,13 @@ def run_case(args):
                 for k in range(o["_tracking"]):
                     fh.write("%.4f %.4f\n" % (r.uniform(-3, 3) + P["qc"], r.uniform(-3, 3) + P["pc"]))
             run_opts["tracking"] = "trk.txt"
+        if o.get("_startfile"):
+            from checks import c03
+            rr = core.Rng("c10start", ctx.seed, i)
+            blobs = [(P["qc"] + rr.uniform(-1.2, 1.2), P["pc"] + rr.uniform(-1.2, 1.2), max(rr.uniform(0.5, 0.9), 3 * P["delta"]), rr.uniform(0.3, 1)) for _ in range(2)]
+            if not c03.write_start(os.path.join(wd, "start.h5"), P["n"], P["qc"], P["pc"], P["pq"], blobs, normalise=True):
+                return dict(i=i, skip="could not craft the start file")
+            run_opts["InitialDistFile"] = "start.h5"
         run_opts["output"] = "out.h5"
         env = None
         steps_done = None
@@ -162,6 +175,7 @@ def run_case(args):
         chk["_has_wake"] = has_wake(run_opts)
         h5oracle.check_file(h, chk, rep, steps_done=steps_done)
         out["interrupted"] = steps_done is not None
+        out["from_start_file"] = bool(o.get("_startfile"))
         ntrk = o.get("_tracking", 0)
         if h["/Particles/data"].shape[1:] != (ntrk, 2):
             rep.v("C10:particles_shape", "particle dataset does not have one row per tracked particle", shape=list(h["/Particles/data"].shape), particles=ntrk)
@@ -201,8 +215,10 @@ def run(ctx):
         ctx.ev("files_checked")
         if res.get("interrupted"):
             ctx.ev("interrupted_files_checked")
+        if res.get("from_start_file"):
+            ctx.ev("files_of_runs_started_from_a_file")
         ctx.ev("records_checked", res["records"])
         res["rep"].merge_into(ctx, w)
         ctx.sample(dict(options=res["opts"], records=res["records"]))
     ctx.min_events = {"files_checked": max(10, n // 2), "projections_compared": 100, "moment_records_compared": 200,
-                      "wake_records_compared": 30, "csr_records_compared": 100, "unit_attributes_checked": 200}
+                      "wake_records_compared": 30, "files_of_runs_started_from_a_file": max(3, n // 12), "csr_records_compared": 100, "unit_attributes_checked": 200}
